@@ -319,6 +319,8 @@ class IntroVisitor(ast.NodeVisitor):
         self._store_names: Set[LocalVar] = {current_fun_name}
         self.inters: List[FunctionInteractions] = []
         self.load_paths: List[DDSPath] = []
+        # The AST nodes (python ids) of the names of the functions given to dds.keep
+        self._kept_function_names: Set[int] = set()
 
     def visit_Call(self, node: ast.Call) -> Any:
         # _logger.debug(f"visit_Call: {node} {dir(node)} {pformat(node)}")
@@ -354,9 +356,10 @@ class IntroVisitor(ast.NodeVisitor):
                 node, self._gctx, self._start_mod, self._function_var_names
             ):
                 # The function given to dds.keep has just been introspected with its arguments.
-                # It must not be introspected again as a higher-order reference (without arguments):
-                # the paths kept inside it would be assigned a second, context-dependent signature.
-                self._store_names.add(LocalVar(node.args[1].id))  # type: ignore
+                # This occurrence of its name must not be introspected again as a higher-order
+                # reference (without arguments): the paths kept inside it would be assigned a second,
+                # context-dependent signature. Other references to the same function are still tracked.
+                self._kept_function_names.add(id(node.args[1]))
         # str is the underlying type of a DDSPath
         if fi_or_p is not None and isinstance(fi_or_p, str):
             self._add_load_path(fi_or_p)
@@ -385,6 +388,8 @@ class IntroVisitor(ast.NodeVisitor):
         # not builtins.
         # This neglects the case of shadowing within the function: if the function has a variable that has the same name
         # as another function, then a mismatch will happen.
+        if id(node) in self._kept_function_names:
+            return
         if (
             node.id in self._start_mod.__dict__
             and node.id not in python_builtin_names
